@@ -86,7 +86,8 @@ Documented(c) == CASE c.kind = "sparse" -> SparseState(c)
                    [] c.kind = "mps"    -> MpsState(c)
 
 \* <t|t> = 1   (sum |e_r|^2 = 4^k)
-NormSq(t) == LET S[r \in 0..Len(t.e)] == IF r = 0 THEN Zero ELSE Add(S[r-1], Mul(Conj(t.e[r][1]), t.e[r][1])) IN S[Len(t.e)]
+AbsSq(x) == Bind(x, LAMBDA y : Bind(Conj(y), LAMBDA yc : Mul(yc, y)))
+NormSq(t) == LET S[r \in 0..Len(t.e)] == IF r = 0 THEN Zero ELSE Bind2(S[r-1], AbsSq(t.e[r][1]), LAMBDA acc, z : Add(acc, z)) IN S[Len(t.e)]
 Normalised(t) == NormSq(t) = Int2C(4^t.k)
 
 \* ------------------------------------------------------------------ the event
@@ -101,10 +102,13 @@ Step == /\ pos >= 1 /\ pos <= Len(Case.b)
         /\ LET gt == Case.b[pos] IN V' = ApplyGate(V, GateM(gt), gt.w, Case.n)
         /\ pos' = pos + 1 /\ UNCHANGED <<tid, T>>
 
+\* overflow guard (32-bit integers): every coefficient stays below CMat's Bound.  (Not CMat.InBound: its MaxAbs recursion
+\* references S[j-1] twice and costs 2^H evaluations per ring element, 65536 at M = 5.)
+CoefInBound(m) == \A i \in 1..Len(m.e) : \A j \in 1..Len(m.e[i]) : \A h \in IdxH : m.e[i][j][h] < Bound /\ m.e[i][j][h] > -Bound
 AuxDirty(v, c) == \E r \in 1..Len(v.e) : ~OthersZero(r-1, c.tw, c.n) /\ ~IsZero(v.e[r][1])
 
 Verdict(t, v, c) ==
-  IF ~InBound(t) \/ ~InBound(v) THEN "overflow"
+  IF ~CoefInBound(t) \/ ~CoefInBound(v) THEN "overflow"
   ELSE IF ~Normalised(t) THEN "documented-state-not-normalised"
   ELSE IF c.rel = "emit" THEN "ok"
   ELSE IF AuxDirty(v, c) THEN "aux-not-clean"
